@@ -132,6 +132,32 @@ let handle (x : sexp) : (string * string) list =
        let ranges = List.map (function L (_ :: A s :: A e :: _) -> (n_of_decimal s, n_of_decimal e) | _ -> raise (Sexp_error "tok")) items in
        if not (ranges_ok_b (n_of_int (String.length input)) N0 ranges) then add "specfail" ("tokens_in_range " ^ i_toks)
      | _ -> add "specfail" ("total: lexer " ^ i_toks));
+    (* ---------------- block strings: C15's model of the lexer's trimming (the lexer side of the theorem
+       c05_block_string_requotable) against every terminated block-string token of the implementation *)
+    (match tok_items with
+     | Some items ->
+       let n = String.length input in
+       let is_ws c = c = ' ' || c = '\t' || c = '\r' || c = '\n' in
+       List.iter (function
+           | L (A "21" :: A s :: A e :: _) ->
+             let s = int_of_string s and e = int_of_string e in
+             if s <= e && e <= n then begin
+               let bs = ref s and be = ref e in
+               while !bs > 0 && is_ws input.[!bs - 1] do decr bs done;
+               while !be < n && is_ws input.[!be] do incr be done;
+               if !bs >= 3 && String.sub input (!bs - 3) 3 = "\"\"\"" && !be + 3 <= n && String.sub input !be 3 = "\"\"\"" then begin
+                 let body = bytes_of_string (String.sub input !bs (!be - !bs)) in
+                 let content = String.sub input s (e - s) in
+                 if not (go_block_lexable body) then
+                   add "mismatch" (Printf.sprintf "corr:C05/block-trim the implementation delimits %s, the trimming model does not" (quote_string (b2s body)))
+                 else if b2s (stored body) <> content then
+                   add "mismatch" (Printf.sprintf "corr:C05/block-trim body=%s impl=%s model=%s" (quote_string (b2s body)) (quote_string content) (q (stored body)))
+                 else if b2s (stored (printed (stored body))) <> content then
+                   add "mismatch" (Printf.sprintf "corr:C05/block-requote body=%s" (quote_string (b2s body)))
+               end
+             end
+           | _ -> ()) items
+     | None -> ());
     (* ---------------- limits *)
     let i_lim = print_sexp lim in
     let m_lim = match tokenize_limits true true lz fz b with
